@@ -46,10 +46,11 @@ const (
 	AStall       // never answers
 	ASlow        // answers completely, but only after the caller's request timeout (and before the read timeout)
 	AOkCloseCap  // like AOkClose, spelled "Connection: Close" (connection options are case-insensitive tokens)
+	AChunkedCut  // chunked response, complete up to and including the last-chunk line "0\r\n", then the peer closes (the final CRLF never arrives)
 	nAnswers
 )
 
-var answerNames = []string{"ok", "ok+close", "silent-close-idle", "close-before-first-byte", "close-mid-header", "close-mid-body", "stall", "slow", "ok+Close"}
+var answerNames = []string{"ok", "ok+close", "silent-close-idle", "close-before-first-byte", "close-mid-header", "close-mid-body", "stall", "slow", "ok+Close", "chunked-cut-before-final-CRLF"}
 
 type Scenario struct {
 	Name     string `json:"name"`
@@ -282,6 +283,15 @@ func (c *sconn) request(head, from string) {
 		full = full[:bytes.Index(full, []byte("\r\n\r\n"))+4]
 	}
 	switch ans {
+	case AChunkedCut:
+		body := "id=" + id
+		cut := []byte(fmt.Sprintf("HTTP/1.1 200 OK\r\nContent-Type: text/plain\r\nTransfer-Encoding: chunked\r\n\r\n%x\r\n%s\r\n0\r\n", len(body), body))
+		if method == "HEAD" {
+			cut = full
+		}
+		c.out = append(c.out, cut...)
+		c.respLeft = len(cut) + 2
+		c.eof = true
 	case AOkCloseCap:
 		ans = AOkClose
 		c.lastAns = AOkClose
